@@ -129,18 +129,16 @@ found:
 		return errors.New("index: attempt to add record out of position sort order")
 	}
 	i.LastRecord = r.Start()
-	eiv := r.End() / TileWidth
-	if eiv == len(ref.Intervals) {
-		if eiv > biv {
-			panic("index: unexpected alignment length")
-		}
-		ref.Intervals = append(ref.Intervals, c.Begin)
-	} else if eiv > len(ref.Intervals) {
-		intvs := make([]bgzf.Offset, eiv)
+	eiv := (r.End() - 1) / TileWidth // Tile holding the last base.
+	if eiv < biv {
+		eiv = biv
+	}
+	if eiv >= len(ref.Intervals) {
+		intvs := make([]bgzf.Offset, eiv+1)
 		if len(ref.Intervals) > biv {
 			biv = len(ref.Intervals)
 		}
-		for iv, offset := range intvs[biv:eiv] {
+		for iv, offset := range intvs[biv:] {
 			if !isZero(offset) {
 				panic("index: unexpected non-zero offset")
 			}
